@@ -77,6 +77,7 @@ func runC11(rc *RunCtx) *simkit.Violation {
 	const prop = "C11"
 	w := rc.W
 	t := w.W
+	defer drawCommitOpts(t)()
 	d := newDM(rc)
 	setup := w.Client("setup")
 	if v := createRepo(prop, d, setup, "r1"); v != nil {
